@@ -88,7 +88,9 @@ def gen_marker(rng, n, tier):
         nf = rng.randint(1, 3)
         k = rng.randint(1, 8)
         out.append({'mode': rng.choice([1, 2]), 'thr': [rng.choice([0.0, 1.0, 2.0, 2.5]) for _ in range(nf)],
-                    'cols': [[rng.choice(VALS) for _ in range(k)] for _ in range(nf)], 'scalar': nf == 1 and rng.random() < 0.5})
+                    'cols': [[rng.choice(VALS) for _ in range(k)] for _ in range(nf)], 'scalar': nf == 1 and rng.random() < 0.5,
+                    # a third of the cases first run another segmentation into the same output feature (other thresholds, other mode): the second run must overwrite it
+                    'before': ([rng.choice([0.0, 1.0, 2.0, 2.5, -2.0]) for _ in range(nf)], rng.choice([1, 2])) if rng.random() < 0.33 else None})
     return out
 
 
@@ -101,6 +103,8 @@ def run_marker(case):
     names = ['f%d' % j for j in range(len(case['cols']))]
     for nm, c in zip(names, case['cols']):
         tr.createAnalyticalFeature(nm, [nan if v is None else v for v in c])
+    if case.get('before'):
+        sg.segmentation(tr, names, 'out', list(case['before'][0]), case['before'][1])
     if case['scalar']:
         sg.segmentation(tr, names[0], 'out', case['thr'][0], case['mode'])
     else:
